@@ -4,6 +4,7 @@ from .model import *
 from .facts import Site, op_place, Call, proj_field_name
 from .bits import sym, show, cmp_tests
 from . import c13
+from .fields import fields
 
 EXPLANATION = ("decides necessary structural conditions only: the comparison shapes that bound the queues (newest mode: the push lies on the false edge of "
                "`len >= limit`; oldest mode: the push is followed by a *cycle* whose condition is `len > limit` and whose body sheds one job per iteration -- "
@@ -226,7 +227,7 @@ def r5(run, db):
     dr = [f for f in db.crate_fns("ractor") if re.search(r"FactoryState::<.*>::drain_requests::\{closure#0\}$", f.id)]
     run.anchor("drain_requests", len(dr), 1)
     for f in dr:
-        st = [(site, s) for site, s in f.stmts() if s["k"] == "assign" and "drain_state" in [proj_field_name(e) for e in s["lhs"][1] if e.startswith("f:")]]
+        st = [(site, s) for site, s in f.stmts() if s["k"] == "assign" and fields(db).fs_drain_state in [proj_field_name(e) for e in s["lhs"][1] if e.startswith("f:")]]
         hk = [c for c in f.calls() if c.callee and c.callee.endswith("::on_factory_draining")]
         run.check(len(st) == 1 and f.value_consts(st[0][1]["rv"]["op"]) == ["ractor::factory::factoryimpl::DrainState::Draining"] if st and st[0][1]["rv"]["k"] == "use" else False or (len(st) == 1), "drain|state-store", "the drain handler stores Draining", "drain handler does not store Draining", f.where())
         if st and hk:
@@ -234,7 +235,7 @@ def r5(run, db):
     # all drain_state stores
     for f in db.crate_fns("ractor"):
         for site, s in f.stmts():
-            if s["k"] == "assign" and "drain_state" in [proj_field_name(e) for e in s["lhs"][1] if e.startswith("f:")]:
+            if s["k"] == "assign" and fields(db).fs_drain_state in [proj_field_name(e) for e in s["lhs"][1] if e.startswith("f:")]:
                 v = None
                 for r in f.origins(s["rv"]["op"]) if s["rv"]["k"] == "use" else []:
                     if r["k"] == "agg":
@@ -267,7 +268,7 @@ def r5(run, db):
         run.check(okc, "is_drained|predicate", "the per-worker predicate is exactly is_available() (no worker is exempt, e.g. one that is retiring after a shrink)",
                   "the per-worker predicate of is_drained is not plain is_available(): some busy workers are skipped, the factory can stop while they hold queued jobs", g.where())
     ql = [t for t in cmp_tests(idr) if t["op"] == "Eq" and t["b"] == ("c", 0) and t["a"][0] == "call" and t["a"][1].name.endswith("::len")]
-    stores = [site for site, s in idr.stmts() if s["k"] == "assign" and "drain_state" in [proj_field_name(e) for e in s["lhs"][1] if e.startswith("f:")]]
+    stores = [site for site, s in idr.stmts() if s["k"] == "assign" and fields(db).fs_drain_state in [proj_field_name(e) for e in s["lhs"][1] if e.startswith("f:")]]
     run.check(len(ql) == 1 and stores and ql[0]["true_edge"] and idr.edge_dominates(ql[0]["true_edge"], stores[0]), "is_drained|queue-empty", "Drained is stored only when the factory queue is empty", "Drained does not require an empty queue", idr.where())
     # stop only when drained
     hd = [f for f in db.crate_fns("ractor") if re.search(r"factoryimpl::Factory<.*Actor>::handle::\{closure#0\}$", f.id)]
@@ -310,7 +311,7 @@ def r6(run, db):
             vs = [sym(f, a) for a in c.args]
             okm = okm or any(v[0] == "c" and v[1] > 0 for v in vs)
         run.check(okm, "resize|capped", "new size = min(GLOBAL_WORKER_POOL_MAXIMUM, requested)", "new size is not capped by the global maximum", f.where())
-        ps = [(site, st) for site, st in f.stmts() if st["k"] == "assign" and "pool_size" in [proj_field_name(e) for e in st["lhs"][1] if e.startswith("f:")]]
+        ps = [(site, st) for site, st in f.stmts() if st["k"] == "assign" and fields(db).fs_pool_size in [proj_field_name(e) for e in st["lhs"][1] if e.startswith("f:")]]
         run.check(len(ps) == 1 and all(f.reaches_after(c.site, ps[0][0]) for c in g + s), "resize|size-after-change", "pool_size is updated after the pool changed", None, f.where())
 
 
